@@ -12,6 +12,7 @@ package types
 
 import (
 	"encoding/hex"
+	"math"
 	"regexp"
 	"strconv"
 
@@ -250,17 +251,33 @@ var Float32 = graphql.NewScalar(graphql.ScalarConfig{
 	ParseLiteral: func(valueAST ast.Value, variables map[string]any) any {
 		switch valueAST := valueAST.(type) {
 		case *ast.FloatValue:
-			if floatValue, err := strconv.ParseFloat(valueAST.Value, 32); err == nil {
-				return float32(floatValue)
-			}
+			return parseFloat32Literal(valueAST.Value)
 		case *ast.IntValue:
-			if floatValue, err := strconv.ParseFloat(valueAST.Value, 32); err == nil {
-				return float32(floatValue)
-			}
+			return parseFloat32Literal(valueAST.Value)
 		}
 		return nil
 	},
 })
+
+// parseFloat32Literal converts the text of a number literal to a float32 the way every other
+// input route does (JSON documents, Go values and request variables all hold a float64 that is
+// then narrowed): text -> nearest float64 -> nearest float32.
+//
+// Rounding the text directly to single precision (strconv.ParseFloat(s, 32)) gives a different
+// result for decimals that lie just above the midpoint of two float32 values, which made the stored
+// value - and the docID - of a document depend on whether it was given as a literal or as a variable.
+func parseFloat32Literal(text string) any {
+	f64, err := strconv.ParseFloat(text, 64)
+	if err != nil {
+		return nil
+	}
+	f32 := float32(f64)
+	if math.IsInf(float64(f32), 0) {
+		// out of the float32 range (was rejected before as well)
+		return nil
+	}
+	return f32
+}
 
 func coerceFloat64(value any) any {
 	switch value := value.(type) {
